@@ -83,7 +83,7 @@ static void do_wake()
     printf("\nend\n");
 }
 
-// wakeseq: <setup> <nmore>  nmore x profiles(nb*n): ONE object, wakePotential() for the set-up's profiles and then
+// wakeseq: <setup> <nmore>  nmore x ( W|C|P profiles(nb*n) ): ONE object, wakePotential() for the set-up's profiles and then
 // once more for every further set of profiles; after EVERY call the same lines as `wake` are printed (line k of a
 // tag belongs to call k).  C06's statement holds for every call on an object, not only for the first one.
 static void print_wake_call(Setup& S)
@@ -109,20 +109,28 @@ static void do_wakeseq()
     print_inputs(S);
     print_wake_call(S);
     for (long k = 0; k < nmore; k++) {
+        char between = next()[0];       // W: nothing; C: updateCSR(0) with the new profiles first; P: padBunchProfiles() first
         std::vector<float> q((size_t)S.nb * S.n);
         for (auto& v : q) v = nextf();
         set_profiles(S, q);
+        if (between == 'C') S.f->updateCSR(0);
+        else if (between == 'P') S.f->padBunchProfiles();
         print_wake_call(S);
     }
     printf("end\n");
 }
 
-// csr: <setup> <cutoff_frequency>; one fresh object, updateCSR(cutoff) once
+// csr: <setup> <cutoff_frequency> <nwarm> nwarm x profiles; one fresh object, updateCSR(cutoff) once
 static void do_csr()
 {
     std::vector<float> prof;
     Setup S = read_setup(prof);
     float cutoff = nextf();
+    // <nwarm> nwarm x profile(n): earlier wakePotential() calls with OTHER profiles on the object that later gives the
+    // wake for the Parseval oracle (a wake that is only right on a fresh object is not the wake the beam sees)
+    long nwarm = nextl();
+    std::vector<std::vector<float>> warm(nwarm, std::vector<float>((size_t)S.nb * S.n));
+    for (auto& q : warm) for (auto& v : q) v = nextf();
     print_inputs(S);
     S.f->updateCSR(cutoff);
     printf("renorm"); pf(S.f->_formfactorrenorm); printf("\n");
@@ -139,6 +147,8 @@ static void do_csr()
     S.f.reset();
     S.f = std::make_shared<ElectricField>(S.ps, S.z, S.buckets, S.s, nullptr, S.frev,
                                           (meshaxis_t)S.revpart, S.Ib, S.E0, S.sd, S.dt);
+    for (auto& q : warm) { set_profiles(S, q); S.f->wakePotential(); }
+    set_profiles(S, prof2);
     const meshaxis_t* w = S.f->wakePotential();
     printf("\nwakepad");
     for (unsigned i = 0; i < S.N; i++) pf(S.f->getPaddedWakePotential()[i]);
